@@ -256,21 +256,22 @@ enum Tight { T_OK = 0, T_SKIP, T_EARLY };
 // may be off by more than 25 % (8*eps*cond > 1/4).  EARLY otherwise.
 template <class T>
 inline Tight
-tightness (const Quot* q, int nq, double* best_ratio = nullptr)
+tightness (const Quot* q, int nq, double* limit_over_quotient = nullptr)
 {
     const f128 lim  = (f128) tmax<T> () / 4;
-    bool       skip = false;
-    double     best = 0;
+    bool       skip = false, ok = false;
+    f128       mmax = 0;
     for (int i = 0; i < nq; ++i)
     {
-        if (q[i].d == 0) return T_OK;
+        if (q[i].d == 0) { ok = true; mmax = -1; break; }
         f128 m = abs128 (q[i].n / q[i].d);
-        if (m >= lim) return T_OK;
-        double rel = (double) (m / lim);
-        if (rel > best) best = rel;
+        if (m > mmax) mmax = m;
+        if (m >= lim) ok = true;
         if (8.0 * teps<T> () * q[i].cond > 0.25) skip = true;
     }
-    if (best_ratio) *best_ratio = best;
+    // (max/4) / (largest exact quotient): <= 1 is demanded; 0 stands for a zero denominator
+    if (limit_over_quotient) *limit_over_quotient = mmax < 0 ? 0.0 : (mmax == 0 ? 1e300 : (double) (lim / mmax));
+    if (ok) return T_OK;
     return skip ? T_SKIP : T_EARLY;
 }
 
